@@ -51,7 +51,7 @@ deriving Repr, Inhabited
     quantify over the variant, and the correspondence drivers take it from the case line (`+fz` after the entry name,
     pseudo-op `V fz` for cb, sixth variant letter for sim, `variant fz` for wasm draw; probed by `fillZWSuffix` in
     harness/engines/cb.go). -/
-def currentFillBlanksZeroWidth : Bool := false
+def currentFillBlanksZeroWidth : Bool := true
 
 namespace Cell
 
